@@ -8,13 +8,19 @@
 
 use serde_json::{Value, json};
 use std::fmt::{Display, Formatter};
+use std::io::{BufReader, BufWriter};
 use std::sync::{Arc, Mutex};
+use vrp_core::construction::heuristics::InsertionContext;
+use vrp_core::models::Problem;
+use vrp_core::solver::{RefinementContext, Solver, VrpConfigBuilder, create_elitism_population};
 use vrp_core::rosomaxa::algorithms::gsom::Input;
 use vrp_core::rosomaxa::evolution::{EvolutionSimulator, InitialOperator};
 use vrp_core::rosomaxa::example::*;
 use vrp_core::rosomaxa::population::{Elitism, Greedy};
 use vrp_core::rosomaxa::prelude::*;
 use vrp_core::rosomaxa::utils::{Parallelism, Timer};
+use vrp_pragmatic::format::problem::PragmaticProblem;
+use vrp_pragmatic::format::solution::{PragmaticOutputType, read_init_solution, write_pragmatic};
 use vrp_verif_harness::*;
 
 type Pop = Box<dyn HeuristicPopulation<Objective = VectorObjective, Individual = VectorSolution> + Send + Sync>;
@@ -375,6 +381,123 @@ fn run_solve(case: &Value) -> Value {
 }
 
 // ---------------------------------------------------------------------------------------------
+// the VRP solver seeded with a feasible initial solution (vrp-core solver/mod.rs, pragmatic initial_reader.rs)
+
+fn vrp_env(cpus: usize) -> Arc<Environment> {
+    Arc::new(Environment::new(
+        Arc::new(DefaultRandom::new_repeatable()),
+        None,
+        Parallelism::new_with_cpus(cpus),
+        Arc::new(|_| {}),
+        false,
+    ))
+}
+
+fn vrp_problem_json(case: &Value) -> String {
+    let loc = |p: &Value| json!({"lat": 52.5 + p[0].as_i64().unwrap() as f64 / 1000., "lng": 13.4 + p[1].as_i64().unwrap() as f64 / 1000.});
+    let jobs: Vec<Value> = case["jobs"]
+        .as_array()
+        .unwrap()
+        .iter()
+        .enumerate()
+        .map(|(i, j)| {
+            let mut place = json!({"location": loc(&j["p"]), "duration": 120.});
+            if !j["tw"].is_null() {
+                let t = |m: i64| format!("2024-01-01T{:02}:{:02}:00Z", m / 60, m % 60);
+                place["times"] = json!([[t(j["tw"][0].as_i64().unwrap()), t(j["tw"][1].as_i64().unwrap())]]);
+            }
+            json!({"id": format!("j{i}"), "deliveries": [{"places": [place], "demand": [j["d"]]}]})
+        })
+        .collect();
+    let n_vehicles = case["vehicles"].as_u64().unwrap();
+    let ids: Vec<String> = (0..n_vehicles).map(|i| format!("v_{i}")).collect();
+    let depot = loc(&json!([0, 0]));
+    json!({
+        "plan": {"jobs": jobs},
+        "fleet": {
+            "vehicles": [{
+                "typeId": "v", "vehicleIds": ids, "profile": {"matrix": "car"},
+                "costs": {"fixed": 25., "distance": 0.002, "time": 0.005},
+                "shifts": [{"start": {"earliest": "2024-01-01T00:00:00Z", "location": depot},
+                            "end": {"latest": "2024-01-01T23:00:00Z", "location": depot}}],
+                "capacity": [case["capacity"]]
+            }],
+            "profiles": [{"name": "car"}]
+        }
+    })
+    .to_string()
+}
+
+fn vrp_solve(problem: &Arc<Problem>, env: &Arc<Environment>, pop: &str, init: Vec<InsertionContext>, gens: usize)
+-> vrp_core::models::Solution {
+    let builder = VrpConfigBuilder::new(problem.clone())
+        .set_environment(env.clone())
+        .set_telemetry_mode(TelemetryMode::None)
+        .prebuild()
+        .expect("prebuild")
+        .with_init_solutions(init, None)
+        .with_max_generations(Some(gens));
+    let builder = if pop == "elitism" {
+        let population = Box::new(create_elitism_population(problem.goal.clone(), env.clone()));
+        builder.with_context(RefinementContext::new(problem.clone(), population, TelemetryMode::None, env.clone()))
+    } else {
+        builder
+    };
+    Solver::new(problem.clone(), builder.build().expect("config")).solve().expect("solve failed")
+}
+
+fn fitness_bits(problem: &Problem, ctx: &InsertionContext) -> Vec<u64> {
+    problem.goal.fitness(ctx).map(|f| f.to_bits()).collect()
+}
+
+fn run_vrp(case: &Value) -> Value {
+    let problem = Arc::new(vrp_problem_json(case).read_pragmatic().unwrap_or_else(|e| panic!("cannot read problem: {e}")));
+    // population by the default rule: one cpu => Greedy, more => Rosomaxa
+    let pop = case["pop"].as_str().unwrap();
+    let env = vrp_env(if pop == "greedy" { 1 } else { 4 });
+    // a feasible solution: what the solver returns after `gens0` generations, written as a pragmatic solution
+    let first = vrp_solve(&problem, &env, pop, vec![], case["gens0"].as_u64().unwrap() as usize);
+    let mut buffer = vec![];
+    {
+        let mut writer = BufWriter::new(&mut buffer);
+        write_pragmatic(&problem, &first, PragmaticOutputType::OnlyPragmatic, &mut writer).expect("cannot write solution");
+    }
+    // ... read back by the initial solution reader and handed to a new solver run
+    let init = read_init_solution(BufReader::new(buffer.as_slice()), problem.clone(), env.random.clone())
+        .unwrap_or_else(|e| panic!("cannot read initial solution: {e}"));
+    let init_ctx = InsertionContext::new_from_solution(problem.clone(), (init, None), env.clone());
+    let seeded = vrp_solve(&problem, &env, pop, vec![init_ctx.deep_copy()], case["gens"].as_u64().unwrap() as usize);
+    let res_ctx = InsertionContext::new_from_solution(problem.clone(), (seeded, None), env.clone());
+    json!({
+        "cmp": ord_to_i(problem.goal.total_order(&res_ctx, &init_ctx)),
+        "init_fitness": fitness_bits(&problem, &init_ctx),
+        "result_fitness": fitness_bits(&problem, &res_ctx),
+        "init_unassigned": init_ctx.solution.unassigned.len(),
+        "init_tours": init_ctx.solution.routes.len(),
+    })
+}
+
+fn vrp_case(rng: &mut Rng) -> Value {
+    let n = rng.usize(3, 12);
+    let jobs: Vec<Value> = (0..n)
+        .map(|_| {
+            let tw = if rng.chance(1, 3) {
+                let a = rng.range(0, 600);
+                json!([a, a + rng.range(60, 600)])
+            } else {
+                Value::Null
+            };
+            json!({"p": [rng.range(-40, 40), rng.range(-40, 40)], "d": rng.range(1, 3), "tw": tw})
+        })
+        .collect();
+    json!({
+        "k": "vrp", "pop": *rng.pick(&["greedy", "rosomaxa", "rosomaxa", "elitism"]), "jobs": jobs,
+        "vehicles": rng.range(1, 3), "capacity": rng.range(4, 15), "gens0": *rng.pick(&[1u64, 1, 3, 10]),
+        "gens": *rng.pick(&[0u64, 1, 5, 30, 60]),
+    })
+}
+
+// ---------------------------------------------------------------------------------------------
 // generators
 
 const FIT_PALETTES: &[&[i64]] = &[
@@ -553,17 +676,23 @@ fn solve_case(rng: &mut Rng, max_gens: u64) -> Value {
     })
 }
 
-/// every operation sequence of length `len` over a three-value fitness alphabet
-fn exhaustive(kind: &str, cfg: &Value, len: usize, cases: &mut Vec<Value>) {
+/// every operation sequence of length `len` over a three-value fitness alphabet; `reduced` = a smaller op alphabet
+fn exhaustive(kind: &str, cfg: &Value, len: usize, reduced: bool, cases: &mut Vec<Value>) {
     // the op alphabet; individuals get their ids from the position in the sequence
     let mut alphabet: Vec<Value> = vec![];
     for f in 1..=3 {
         alphabet.push(json!({"o": "add", "f": [f]}));
     }
     alphabet.push(json!({"o": "add_all", "f": []}));
-    for f in 1..=3 {
-        for g in 1..=3 {
-            alphabet.push(json!({"o": "add_all", "f": [f, g]}));
+    if reduced {
+        for pair in [[2, 1], [1, 2], [3, 3]] {
+            alphabet.push(json!({"o": "add_all", "f": pair}));
+        }
+    } else {
+        for f in 1..=3 {
+            for g in 1..=3 {
+                alphabet.push(json!({"o": "add_all", "f": [f, g]}));
+            }
         }
     }
     alphabet.push(json!({"o": "select"}));
@@ -599,7 +728,7 @@ fn exhaustive(kind: &str, cfg: &Value, len: usize, cases: &mut Vec<Value>) {
 fn gen_cases(rng: &mut Rng, tier: Tier) -> Vec<Value> {
     let thorough = tier == Tier::Thorough;
     let mut cases = vec![];
-    let (n_seq, max_ops) = if thorough { (20_000, 400) } else { (400, 60) };
+    let (n_seq, max_ops) = if thorough { (20_000, 400) } else { (1600, 60) };
     for i in 0..n_seq {
         // most sequences short (they find the boundary cases), some long
         let m = if i % 4 == 0 { max_ops } else { 25 };
@@ -609,29 +738,33 @@ fn gen_cases(rng: &mut Rng, tier: Tier) -> Vec<Value> {
             _ => rosomaxa_case(rng, m),
         });
     }
-    for _ in 0..(if thorough { 1500 } else { 40 }) {
+    for _ in 0..(if thorough { 1500 } else { 120 }) {
         cases.push(solve_case(rng, if thorough { 300 } else { 60 }));
+    }
+    for _ in 0..(if thorough { 300 } else { 24 }) {
+        cases.push(vrp_case(rng));
     }
     let greedy_cfgs = [json!({"sel": 1, "init": null}), json!({"sel": 2, "init": [0, 2, 100]})];
     let elitism_cfgs: Vec<Value> = [(1, "never"), (2, "never"), (2, "fit"), (2, "default"), (3, "fit")]
         .iter()
         .map(|(max, dedup)| json!({"max": max, "sel": 2, "dedup": dedup}))
         .collect();
-    let max_len = if thorough { 4 } else { 2 };
+    // exhaustive: all configurations up to length 2 (quick) / 3 (thorough); the main ones one or two steps further
+    let max_len = if thorough { 3 } else { 2 };
     for len in 1..=max_len {
         for cfg in greedy_cfgs.iter() {
-            exhaustive("greedy", cfg, len, &mut cases);
+            exhaustive("greedy", cfg, len, false, &mut cases);
         }
         for cfg in elitism_cfgs.iter() {
-            exhaustive("elitism", cfg, len, &mut cases);
+            exhaustive("elitism", cfg, len, false, &mut cases);
         }
     }
-    if !thorough {
-        exhaustive("greedy", &greedy_cfgs[0], 3, &mut cases);
-        exhaustive("elitism", &elitism_cfgs[2], 3, &mut cases);
-    } else {
-        exhaustive("greedy", &greedy_cfgs[0], 5, &mut cases);
-        exhaustive("elitism", &elitism_cfgs[2], 5, &mut cases);
+    exhaustive("greedy", &greedy_cfgs[0], max_len + 1, false, &mut cases);
+    exhaustive("elitism", &elitism_cfgs[2], max_len + 1, false, &mut cases);
+    if thorough {
+        exhaustive("elitism", &elitism_cfgs[0], 4, false, &mut cases);
+        exhaustive("greedy", &greedy_cfgs[0], 5, true, &mut cases);
+        exhaustive("elitism", &elitism_cfgs[2], 5, true, &mut cases);
     }
     cases
 }
@@ -650,6 +783,10 @@ fn exec(case: &Value) -> Value {
         "solve" => {
             let case = case.clone();
             on_fresh_thread(move || run_solve(&case))
+        }
+        "vrp" => {
+            let case = case.clone();
+            on_fresh_thread(move || run_vrp(&case))
         }
         other => panic!("unknown case kind {other}"),
     }
